@@ -48,6 +48,20 @@ CLAIMED = {
              'elements that are cells of the workbook. No writes (C01 owns them).',
         technique=TECH + ': enumerated first-touch permutations x seeded access paths vs. reference model',
         design='DESIGN.md section 3 C05'),
+    'C08': dict(
+        level='exploration',
+        text='Seeded histories around one trim_graph(inputs, outputs): writes/reads before it, then input '
+             're-assignments (cells, range members, whole-range block writes) and output reads, optionally '
+             'through yml/json/pkl save+load on the same or a fresh thread; inputs are drawn from leaf '
+             'constants, ranges written in formulas, buried formula cells, constants that are also outputs, '
+             'inputs feeding only some or none of the outputs. Every output read is compared with the '
+             'untrimmed reference model under the same input assignment.',
+        note='Trusted: harness generator/driver and its DAG; reference shares pycel arithmetic. Outputs are '
+             'evaluated once before trim (as every use in the repository does); input ranges are ranges some '
+             'formula writes exactly; no input above a buried input; the documented ValueError for an input '
+             'without dependants is accepted.',
+        technique=TECH + ': seeded operation histories with trim and restart faults vs. untrimmed reference model',
+        design='DESIGN.md section 3 C08'),
 }
 
 NOT_APPLICABLE = {
@@ -64,7 +78,7 @@ NOT_APPLICABLE = {
     'C20': 'text functions are pure string functions',
 }
 
-PENDING = {k: 'applicable (see DESIGN.md) but its check is not built yet in this snapshot; not claimed until it is' for k in ('C03', 'C06', 'C07', 'C08', 'C09', 'C12')}
+PENDING = {k: 'applicable (see DESIGN.md) but its check is not built yet in this snapshot; not claimed until it is' for k in ('C03', 'C06', 'C07', 'C09', 'C12')}
 
 
 def main():
